@@ -441,7 +441,14 @@ func execRekey(o hx.Op) string {
 		}
 		return k
 	}
+	sidStable, sidEqual := 1, 1
+	var sid0 []byte
 	if status == "ok" {
+		// getSessionID: the first exchange hash, identical on both sides, never replaced by a re-key
+		sid0 = append([]byte(nil), ch.SessionID()...)
+		if len(sid0) == 0 || string(sid0) != string(sh.SessionID()) {
+			sidEqual = 0
+		}
 		go reader(ch, &crecv)
 		go reader(sh, &srecv)
 		rk, app := o.Int("rk"), o.Int("app")
@@ -485,6 +492,9 @@ func execRekey(o hx.Op) string {
 				cr, cwq, _, _ := ch.SeqNums()
 				sr, swq, _, _ := sh.SeqNums()
 				samples = append(samples, fmt.Sprintf("%d.%d.%d.%d.%d.%d", length(&sc), length(&ss), cr, cwq, sr, swq))
+				if string(ch.SessionID()) != string(sid0) || string(sh.SessionID()) != string(sid0) {
+					sidStable = 0
+				}
 			}
 		}
 		// trailing application packets after the last NEWKEYS
@@ -508,7 +518,7 @@ func execRekey(o hx.Op) string {
 	ce.rs, ce.ws, ce.strict, ce.idone = ch.SeqNums()
 	se.rs, se.ws, se.strict, se.idone = sh.SeqNums()
 	// what one side sent is what the other received (no attacker)
-	return "r" + ce.String("c") + se.String("s") + " dc=" + ss.String() + " ds=" + sc.String() + " sc=" + sc.String() + " ss=" + ss.String() + " samples=" + hx.JoinStrs(samples)
+	return "r" + ce.String("c") + se.String("s") + " dc=" + ss.String() + " ds=" + sc.String() + " sc=" + sc.String() + " ss=" + ss.String() + " samples=" + hx.JoinStrs(samples) + fmt.Sprintf(" sid=%d%d sidlen=%d", sidStable, sidEqual, len(sid0))
 }
 
 func execHS(o hx.Op) string {
@@ -636,11 +646,40 @@ func gen(g *hx.Gen) {
 		kexes = allKex
 	}
 	idle := 1500
+	typesHit := map[int]bool{}
 	emit := func(m, mode, strict, dir, act string, pos, ty int, extra string) {
 		g.Emit("hs m=%s mode=%s strict=%s dir=%s act=%s pos=%d ty=%d idle=%d seed=%d%s", m, mode, strict, dir, act, pos, ty, idle, r.U64()>>1, extra)
 		g.Stat("mode." + mode + ".strict" + strict)
 		g.Stat("act." + act)
+		// feature pairs: who is under test × strict × action × position × injected type
+		role := map[string]string{"mitm": "both-real", "peers": "real-client", "peerc": "real-server"}[mode]
+		if mode == "mitm" {
+			role += "." + dir
+		}
+		g.Stat("pair." + role + "+strict" + strict)
+		g.Stat("pair." + role + "+" + act)
+		g.Stat(fmt.Sprintf("pair.strict%s+%s@%d", strict, act, pos))
+		if act == "ins" {
+			typesHit[ty] = true
+			g.Stat(fmt.Sprintf("pair.strict%s+type%d", strict, ty))
+			g.Stat(fmt.Sprintf("pair.%s+type%d", role, ty))
+			g.Stat(fmt.Sprintf("pair.pos%d+type%d", pos, ty))
+		}
 	}
+	defer func() {
+		// arms of the receive path's type switch: NEWKEYS, DISCONNECT, IGNORE, DEBUG, KEXINIT, expected kex message, other
+		arms := 0
+		for _, t := range []int{21, 1, 2, 4, 20} {
+			if typesHit[t] {
+				arms++
+			}
+		}
+		if typesHit[3] || typesHit[192] {
+			arms++ // "other"
+		}
+		arms++ // the expected kex messages occur in every run
+		g.Stat(fmt.Sprintf("table.recv-type-switch=%d/7", arms))
+	}()
 	for _, m := range kexes {
 		n := nPackets(m)
 		// real client + real server + man in the middle (strict mode is always negotiated)
